@@ -1835,7 +1835,7 @@ var fieldOwner = map[*types.Var]string{}
 
 func collectSharedStructs(nodePath, pegnetPath string) {
 	found := 0
-	for _, cand := range [][2]string{{nodePath, "Pegnetd"}, {pegnetPath, "BlockSync"}} {
+	for _, cand := range [][2]string{{nodePath, "Pegnetd"}, {pegnetPath, "BlockSync"}, {pegnetPath, "Pegnet"}} {
 		for _, nm := range ourNamed {
 			if nm.Obj().Pkg().Path() != cand[0] || nm.Obj().Name() != cand[1] {
 				continue
@@ -1848,8 +1848,8 @@ func collectSharedStructs(nodePath, pegnetPath string) {
 			}
 		}
 	}
-	if found != 2 {
-		die("struct types node.Pegnetd / pegnet.BlockSync not found")
+	if found != 3 {
+		die("struct types node.Pegnetd / pegnet.BlockSync / pegnet.Pegnet not found")
 	}
 }
 
